@@ -1647,8 +1647,18 @@ func ruleLCK2(w *World, r *Report, lr *lckResult) {
 }
 
 // ruleLCK5: guarded fields.
-func ruleLCK5(w *World, r *Report, lr *lckResult) {
-	r.Doc("LCK-5", "every access to a guarded field of a shared object happens while its guard lock is held (must-hold on every path), either in the accessing function or — for caller-must-hold helpers — in every caller up to an entry point", 10)
+func ruleLCK5(w *World, r *Report, lr *lckResult) { ruleLCK5f(w, r, lr, nil) }
+
+func lck5Floor(keep func(string) bool) int {
+	if keep != nil {
+		return 4
+	}
+	return 10
+}
+
+// ruleLCK5f restricts LCK-5 to the guard classes accepted by keep (nil = all).
+func ruleLCK5f(w *World, r *Report, lr *lckResult, keep func(guardClass string) bool) {
+	r.Doc("LCK-5", "every access to a guarded field of a shared object happens while its guard lock is held (must-hold on every path), either in the accessing function or — for caller-must-hold helpers — in every caller up to an entry point", lck5Floor(keep))
 	r.Count("guarded_field_accesses", lr.guardSeen)
 	ids := make([]string, 0, len(lr.guardViol))
 	for id := range lr.guardViol {
@@ -1659,6 +1669,9 @@ func ruleLCK5(w *World, r *Report, lr *lckResult) {
 	for _, id := range ids {
 		parts := strings.SplitN(id, "|", 2)
 		nm, g := parts[0], parts[1]
+		if keep != nil && !keep(g) {
+			continue
+		}
 		if why2, ok := lck5Exceptions[nm+":"+g]; ok {
 			r.Ok("LCK-5", "guard:"+g+"@"+shortQ(nm), w.Pos(lr.guardViol[id]), "exception: "+why2)
 			r.Except(nm + ":" + g + ": " + why2)
@@ -1674,6 +1687,9 @@ func ruleLCK5(w *World, r *Report, lr *lckResult) {
 		}
 	}
 	for _, g := range guardTable {
+		if keep != nil && !keep(strings.TrimSuffix(g.guards[0], "!W")) {
+			continue
+		}
 		r.Ok("LCK-5", "field:"+g.owner+"."+g.field, "", fmt.Sprintf("accesses outside the reported functions hold %s", strings.Join(g.guards, " or ")))
 	}
 	_ = n
